@@ -260,3 +260,17 @@ prop("C10", level="exploration",
            "constructed point; distinct by case; distinct_sets.point_x_attack = distinct (lifecycle point, attack kind) pairs exercised (24 possible)."),
      min_nontrivial=dict(quick=150, thorough=2000),
      assumptions=_fs_assume)
+
+prop("C06", level="exploration",
+     stages=[dict(pkg="fullstack", test="TestC06", sub="pause", race=True, vary_gomaxprocs=True,
+                  cases=dict(quick=700, thorough=10000), timeout=3600)],
+     technique="runtime monitoring: differential outcome check (reference model 1) of exchanges paused and resumed on either side via API or hooks at every block index and resume timing, plus a wire-log monitor for data sent while a response is paused; Go race detector",
+     level_text=("C02-style cases are run with one pause: requestor API, requestor incoming-block hook, responder API, responder outgoing-block hook, responder "
+                 "request hook (start paused) resumed by API or by an update hook; at a random block index; resumed after quiescence, immediately (retrying "
+                 "until the pause has taken effect) or after a random delay. The outcome must equal the uninterrupted reference outcome exactly, and "
+                 "between a RequestPaused message and the accepted unpause the responder must not send metadata or blocks for the request."),
+     level_note="Cases are kept out of C02's known-finding classes. Requestor-side resumes with an undrained pre-pause stream are a recorded known finding (protocol limitation), recognised from wire/listener events and the reference load list only.",
+     rule=("One evaluation = one (case, pause side, block index, resume timing) execution. Non-trivial = the pause really took place before the request "
+           "finished; distinct by (case, side, index, timing); distinct_sets.side_x_timing = (side, timing) pairs exercised (18 possible)."),
+     min_nontrivial=dict(quick=300, thorough=4000),
+     assumptions=_fs_assume)
